@@ -34,7 +34,7 @@ func (p *Program) verifyFunc(c *Contract) *FuncResult {
 		st.glob[g] = ex.fresh(g+"0", stateSorts[g])
 	}
 	fr := &Frame{ex: ex, fn: fn, contract: c, vals: map[ssa.Value]Val{}, names: map[string]Val{}, cellNames: map[string]*Cell{}, nilFlags: map[ssa.Value]Term{}}
-	entryEnv := &Env{Vars: map[string]Term{}, P: p}
+	entryEnv := &Env{Vars: map[string]Term{}, P: p, Ren: c.Ren}
 	ptrParams := map[string]*Cell{}
 	bindParam := func(name string, v ssa.Value, t types.Type) {
 		if pt, ok := t.Underlying().(*types.Pointer); ok {
@@ -84,8 +84,17 @@ func (p *Program) verifyFunc(c *Contract) *FuncResult {
 	for _, prm := range fn.Params {
 		bindParam(prm.Name(), prm, prm.Type())
 	}
-	for _, fv := range fn.FreeVars {
+	// a closure is verified in the context of its creation: captured variables that are assigned only before the closure is
+	// made (and by no closure) keep the value they have there (e.g. height := ctx.BlockHeight() hoisted out of a closure)
+	captured := p.capturedValues(ex, fn)
+	for i, fv := range fn.FreeVars {
 		bindParam(fv.Name(), fv, fv.Type())
+		if t, ok := captured[i]; ok {
+			if ptr, isPtr := fr.vals[fv].(*Ptr); isPtr && ptr.cell != nil && t.Sort == ptr.cell.sort {
+				st.cells[ptr.cell] = t
+				entryEnv.Vars[fv.Name()] = t
+			}
+		}
 	}
 	// captured function variables resolved statically: their own captured variables are this closure's free variables
 	for _, v := range st.cells {
@@ -539,6 +548,125 @@ func (p *Program) defaultTheories() []string {
 			continue // byte-level theories (layer K) are loaded only where a contract or lemma names them, never together with "state"
 		}
 		out = append(out, th)
+	}
+	return out
+}
+
+
+// capturedValues symbolically executes the entry block of the enclosing function up to the creation of closure fn and returns,
+// per free-variable index, the value of each captured variable that is stable: assigned only in that prefix and by no closure.
+// Obligations and diagnostics of the prefix are discarded (the enclosing function is verified on its own).
+func (p *Program) capturedValues(ex *Exec, fn *ssa.Function) map[int]Term {
+	out := map[int]Term{}
+	parent := fn.Parent()
+	if parent == nil || len(parent.Blocks) == 0 {
+		return out
+	}
+	b0 := parent.Blocks[0]
+	var mk *ssa.MakeClosure
+	mkIdx := -1
+	for i, ins := range b0.Instrs {
+		if m, ok := ins.(*ssa.MakeClosure); ok && m.Fn == fn {
+			mk, mkIdx = m, i
+			break
+		}
+	}
+	if mk == nil {
+		return out
+	}
+	stable := map[int]bool{}
+	for i, b := range mk.Bindings {
+		a, ok := b.(*ssa.Alloc)
+		if !ok || a.Referrers() == nil {
+			continue
+		}
+		okAll := true
+		for _, r := range *a.Referrers() {
+			switch x := r.(type) {
+			case *ssa.Store:
+				if x.Addr != ssa.Value(a) {
+					okAll = false // the address itself is stored somewhere
+					break
+				}
+				pos := -1
+				for k, ins := range b0.Instrs {
+					if ins == ssa.Instruction(x) {
+						pos = k
+					}
+				}
+				if x.Block() != b0 || pos < 0 || pos > mkIdx {
+					okAll = false
+				}
+			case *ssa.MakeClosure:
+				g, _ := x.Fn.(*ssa.Function)
+				for j, bd := range x.Bindings {
+					if bd == ssa.Value(a) && (g == nil || freeVarsWritten(g)[j]) {
+						okAll = false
+					}
+				}
+			case *ssa.UnOp, *ssa.DebugRef:
+				// loads and debug references do not change it
+			default:
+				okAll = false
+			}
+		}
+		stable[i] = okAll
+	}
+	nObl, nUns, nTrusted := len(ex.obls), len(ex.unsupported), len(ex.trusted)
+	_ = nTrusted
+	pst := &St{cells: map[*Cell]Val{}, glob: map[string]Term{}}
+	for _, g := range stateComponents {
+		pst.glob[g] = ex.fresh("ctx_"+g, stateSorts[g])
+	}
+	pf := &Frame{ex: ex, fn: parent, vals: map[ssa.Value]Val{}, names: map[string]Val{}, cellNames: map[string]*Cell{}, nilFlags: map[ssa.Value]Term{}}
+	pf.loops = map[*ssa.BasicBlock]*loopCtx{}
+	for _, prm := range parent.Params {
+		switch prm.Type().Underlying().(type) {
+		case *types.Signature, *types.Pointer:
+			pf.vals[prm] = &unknownVal{"parameter of the enclosing function"}
+			continue
+		}
+		f := ex.fresh(prm.Name(), p.sorts.sortOf(prm.Type()))
+		if r := p.rangeFact(f, prm.Type()); r.S != "true" {
+			ex.emit("(assert %s)", r.S)
+		}
+		pf.vals[prm] = f
+	}
+	for _, fv := range parent.FreeVars {
+		pf.vals[fv] = &unknownVal{"captured variable of the enclosing function"}
+	}
+	pf.entrySt = pst.clone()
+	blk := &blockState{fr: pf, st: pst, reach: tTrue, b: b0}
+	func() {
+		defer func() { _ = recover() }()
+		for i, ins := range b0.Instrs {
+			if i >= mkIdx {
+				break
+			}
+			if _, ok := ins.(*ssa.Phi); ok {
+				continue
+			}
+			blk.exec(ins)
+			if blk.done {
+				break
+			}
+		}
+	}()
+	ex.obls = ex.obls[:nObl]
+	prefixClean := len(ex.unsupported) == nUns
+	ex.unsupported = ex.unsupported[:nUns]
+	if !prefixClean {
+		return out // something in the prefix is outside the engine's reach: use no context rather than a wrong one
+	}
+	for i, b := range mk.Bindings {
+		if !stable[i] {
+			continue
+		}
+		if ptr, ok := pf.vals[b].(*Ptr); ok && ptr.cell != nil && len(ptr.path) == 0 {
+			if t, ok := blk.st.cells[ptr.cell].(Term); ok && t.Sort != "Nil" {
+				out[i] = t
+			}
+		}
 	}
 	return out
 }
